@@ -82,6 +82,13 @@ var natives = []native{
 	{"list<map<int,int>>", reflect.TypeOf([]map[int64]int64{}), func() schema.Type {
 		return schema.NewListSchema(schema.NewMapSchema(schema.NewIntSchema(nil, nil, nil), schema.NewIntSchema(nil, nil, nil), nil, nil), nil, nil)
 	}, []map[int64]int64{{1: 1}}},
+	// a list whose items have a NAMED scalar type: its Go type is []MyStr, not []string
+	{"list<typed enum>", reflect.TypeOf([]ukit.MyStr{}), func() schema.Type {
+		return schema.NewListSchema(schema.NewTypedStringEnumSchema[ukit.MyStr](map[ukit.MyStr]*schema.DisplayValue{"a": nil, "b": nil}), nil, nil)
+	}, []ukit.MyStr{"a"}},
+	{"typed enum", reflect.TypeOf(ukit.MyStr("")), func() schema.Type {
+		return schema.NewTypedStringEnumSchema[ukit.MyStr](map[ukit.MyStr]*schema.DisplayValue{"a": nil, "b": nil})
+	}, ukit.MyStr("a")},
 }
 
 // paramLists: 0..2 parameters over all 7 natives, 3 parameters over the first 3
@@ -455,7 +462,7 @@ func main() {
 			res := run("quick", b, 0, time.Time{})
 			return res.Findings
 		},
-		Rule: "handlers built with reflect.MakeFunc for every parameter list of 0-2 parameters over 11 native types (int64, string, float64, bool, []string, map[string]int64, any, map[int64]int64, []int64, []map[string]int64, []map[int64]int64) and 3 parameters over 3 types x 14 result shapes (none, V, error, (V,error), (V,V), (V,V,error), (error,V), (V,bool), (V, int type named 'error'), (int type named 'error'), and four with a result that implements error without being the predeclared interface: (V,*T), (V,struct), (V, wider interface), (*T)) x declarations (matching inputs, every single-position mismatch, one fewer, one more; output in {nil, each of the 7}; outputsError in {false,true}) for NewCallableFunction, and the inputs for NewDynamicCallableFunction; every accepted function is called with 0..4 arguments, and once with a handler returning a non-nil error",
+		Rule: "handlers built with reflect.MakeFunc for every parameter list of 0-2 parameters over 13 native types (int64, string, float64, bool, []string, map[string]int64, any, map[int64]int64, []int64, []map[string]int64, []map[int64]int64, []MyStr (a list of typed enum values), MyStr) and 3 parameters over 3 types x 14 result shapes (none, V, error, (V,error), (V,V), (V,V,error), (error,V), (V,bool), (V, int type named 'error'), (int type named 'error'), and four with a result that implements error without being the predeclared interface: (V,*T), (V,struct), (V, wider interface), (*T)) x declarations (matching inputs, every single-position mismatch, one fewer, one more; output in {nil, each of the 7}; outputsError in {false,true}) for NewCallableFunction, and the inputs for NewDynamicCallableFunction; every accepted function is called with 0..4 arguments, and once with a handler returning a non-nil error",
 		Assumptions: []string{
 			"reference predicate: parameter and result types equal the schemas' reflected types; an error result is the predeclared interface type error",
 			"interface types other than `error` that embed error are outside the alphabet",
